@@ -10,6 +10,7 @@ import (
 	"github.com/safing/portbase/database/query"
 	"github.com/safing/portbase/database/record"
 	"github.com/safing/portbase/database/storage"
+	"github.com/safing/portbase/utils/vhook"
 )
 
 // A Controller takes care of all the extra database logic.
@@ -148,6 +149,7 @@ func (c *Controller) Put(r record.Record) (err error) {
 		return errors.New("storage returned nil record after successful put operation")
 	}
 
+	vhook.AtS("db.put.prenotify", r.Key())
 	c.notifySubscribers(r)
 
 	return nil
